@@ -97,7 +97,22 @@ func matClass(v string) string {
 }
 
 // slot draws the value of a credential-like parameter: mostly one of the kinds that belong there, otherwise anything live.
-func slot(t *rapid.T, label string, right ...string) string {
+func slot(t *rapid.T, label string, right ...string) string { return slotPref(t, nil, label, right...) }
+
+// slotPref: as slot; with a preference (class -> placeholder of material another request of the case presents) the slot takes,
+// three times out of four, the preferred material of a class that belongs into it.
+func slotPref(t *rapid.T, pref map[string]string, label string, right ...string) string {
+	if len(pref) > 0 {
+		var cands []string
+		for _, r := range right {
+			if v, ok := pref[matClass(r)]; ok && strings.HasPrefix(r, "{") && !contains(cands, v) {
+				cands = append(cands, v)
+			}
+		}
+		if len(cands) > 0 && rapid.IntRange(0, 3).Draw(t, label+"-p") > 0 {
+			return rapid.SampledFrom(cands).Draw(t, label+"-pv")
+		}
+	}
 	if rapid.IntRange(0, 9).Draw(t, label+"-x") < 8 {
 		return rapid.SampledFrom(right).Draw(t, label+"-r")
 	}
